@@ -13,7 +13,8 @@
 //	<dest>   A (absent, parent present) | P (parent directories absent) | F:<hexcontent>:<octal mode>
 //	         | D (empty directory) | D,<tree tokens>
 //	<faults> "-" | comma list of: T (tree blob) | c<sha256 prefix of a blob's content> | i<index in the
-//	         list of cas files sorted by name>
+//	         list of cas files sorted by name>: the blob is DELETED; with a leading "m" (mT, mc<sha>, mi<k>) the blob stays
+//	         but reading it breaks half way (the backend's reader returns half of the bytes, then an error)
 //
 // answer: <write: ok|werror|whang|wpanic> TAB <load: ok|error|hang|panic|-> TAB <listing before caching>
 //
@@ -30,6 +31,7 @@ import (
 	"encoding/hex"
 	"flag"
 	"fmt"
+	"io"
 	"os"
 	"path/filepath"
 	"regexp"
@@ -280,10 +282,40 @@ func setup(algo string) env {
 	return e
 }
 
+// readFaults: cas keys whose reader breaks half way (set by applyFaults, cleared by setup)
+var readFaults = map[string]bool{}
+
+type faultBackend struct{ backends.CacheBackend }
+
+type halfReader struct {
+	data []byte
+	pos  int
+}
+
+func (h *halfReader) Read(p []byte) (int, error) {
+	if h.pos >= len(h.data) {
+		return 0, fmt.Errorf("injected read fault after %d bytes", h.pos)
+	}
+	n := copy(p, h.data[h.pos:])
+	h.pos += n
+	return n, nil
+}
+func (h *halfReader) Close() error { return nil }
+
+func (b faultBackend) Get(ctx context.Context, path, key string) (io.ReadCloser, error) {
+	r, err := b.CacheBackend.Get(ctx, path, key)
+	if err != nil || !readFaults[key] {
+		return r, err
+	}
+	data, _ := io.ReadAll(r)
+	r.Close()
+	return &halfReader{data: data[:len(data)/2]}, nil
+}
+
 func newCas() *caching.Cas {
 	backend, err := backends.NewFileSystemCache(logCtx)
 	must(err)
-	return caching.NewCas(backend)
+	return caching.NewCas(faultBackend{backend})
 }
 
 // applyFaults deletes the chosen blobs; returns the description of the cas directory.
@@ -304,8 +336,27 @@ func applyFaults(e env, treeDigest string, faults string) string {
 		}
 	}
 	del := map[int]bool{}
+	mid := map[int]bool{}
+	readFaults = map[string]bool{}
 	if faults != "-" && faults != "" {
 		for _, f := range strings.Split(faults, ",") {
+			if strings.HasPrefix(f, "m") {
+				f = f[1:]
+				if strings.HasPrefix(f, "i") {
+					k, err := strconv.Atoi(f[1:])
+					must(err)
+					if k < len(names) {
+						mid[k] = true
+					}
+					continue
+				}
+				for i, id := range ids {
+					if id == f || (strings.HasPrefix(f, "c") && strings.HasPrefix(id, f)) {
+						mid[i] = true
+					}
+				}
+				continue
+			}
 			if strings.HasPrefix(f, "i") {
 				k, err := strconv.Atoi(f[1:])
 				must(err)
@@ -326,6 +377,9 @@ func applyFaults(e env, treeDigest string, faults string) string {
 		if del[i] {
 			must(os.Remove(filepath.Join(e.casDir, n)))
 			desc = append(desc, ids[i]+"!")
+		} else if mid[i] {
+			readFaults[n] = true
+			desc = append(desc, ids[i]+"~")
 		} else {
 			desc = append(desc, ids[i]+"+")
 		}
